@@ -5,37 +5,73 @@ import json, os, subprocess
 REPO_HOOKS = subprocess.run(['git', '-C', '/repo', 'log', '--format=%h %s'], capture_output=True, text=True).stdout.strip().split('\n')
 HOOK_COMMITS = [l.split()[0] for l in REPO_HOOKS if 'verif hook' in l]
 
+def _c(text, note, technique, ref, category='proof'):
+    return dict(category=category, text=text, design_ref='DESIGN.md section 7, ' + ref, note=note, technique=technique)
+
+BASE = ('Trusted: Coq 8.16.1 kernel + VM (vm_compute); the hand-written executable Gallina model (coq/theories: Store/Alloc/Htx/Iter/Stats/Layout/Db), tied to /repo on '
+        'every run by regenerated constants (gen/Consts.v from the layout-probe hook, gen/Hash_vectors.v from the crate\'s hash) and by the differential runs of this check '
+        '(Rust harness vs the model extracted with ExtrOcamlBasic); rabuf/vu64 (dependencies), the OS and Rc/RefCell glue are modelled or exercised, not verified. ')
+
 CLAIMED = {
- 'C09': dict(category='proof',
-   text='Machine-checked theorems (Coq 8.16.1, closed under the global context) that for every value length < 2^31 and every key length < 2^31 with every pair of 8-aligned offsets the slot chosen by the size estimate + class rounding is a legal slot size and holds the record really written, also when an old larger slot is kept; the statements are over the model functions Sizing.val_need/key_need/roundup whose constants are regenerated from the crate on every run, and which are compared with the crate\'s own sizing code (layout-probe hook) exhaustively over the quantified ranges (L_size) and end to end with sentinel entries (L_img).',
-   design_ref='DESIGN.md section 7, C09',
-   note='Trusted: Coq kernel + VM; the hand-written Sizing.v (tied by Consts.v regeneration and the exhaustive L_size diff: quick 0..2^18 value lengths / 0..1500 key lengths x 35^2 offset classes, thorough 0..2^24 / 0..65536); the probe hook; vu64::encoded_len as the oracle\'s length function. The "writing one entry never alters another" clause is carried by the sentinel sweep and the byte-exact image comparison, not yet by a frame theorem over render.',
-   technique='Coq proof (lia over varint widths and size classes) + exhaustive differential sizing sweep'),
- 'C10': dict(category='proof',
-   text='Machine-checked round-trip and injectivity theorems for the u64, i64 and vu64 key conversions over all 2^64 integers, and "same entry iff equal" for all five key types stated on the comparison the lookup uses (cmp_eq), all closed under the global context; the model conversions are compared with the crate\'s From impls (by value and by reference), cmp_u8 and hash_value on every power of two +-1, extremes and seeded random values, and typed maps are driven by integer-addressed histories against the model.',
-   design_ref='DESIGN.md section 7, C10',
-   note='Trusted: Coq kernel + VM; hand-written KeyTypes.v/Vu64.v/Hash.v tied by the L_conv diff and 64 regenerated hash vectors; that the by-value and by-reference Rust impls agree is observed (test), not proved. "Keys returned by iteration convert back" rests on C04 (iteration yields the stored key bytes) plus these round trips.',
-   technique='Coq proof (round trips by case analysis on varint width) + differential conversion check'),
+ 'C01': _c('Machine-checked refinement theorem (C01_refines_ideal_map, closed under the global context): from every state satisfying the file invariant, every finite history of put/get/delete/includes_key/len/is_empty with keys and values of any length < 2^31 returns Ok and, call by call, exactly the ideal gmap\'s results; the invariant is re-established (induction over the history; per-operation lemmas for in-place overwrite, value relocation, key-record relocation with cascading re-link, chain unlink; allocator layer below). Termination of every loop over file contents is part of the statement (fuel shown sufficient). The model is run against the crate on seeded histories (all key types, 1..4096 buckets, sizes biased to slot-class and 4 KiB/16 KiB/128 KiB boundaries) and every call result compared.',
+           BASE + 'Lengths >= 2^31 and files >= 16 EiB are outside the theorem. A hang outside the modelled loops would only be seen by the runner\'s watchdog.',
+           'Coq refinement proof to an ideal gmap (induction over histories) + differential runs model vs crate', 'C01'),
+ 'C02': _c('Theorems: close+reopen keeps invariant, contents, length, table size and byte images (C02_reopen_preserves_contents); histories cut into any number of sessions refine the ideal map (C02_sessions_refine_ideal_map, induction over sessions); opening an existing map ignores the parameters. In the model the files are the state; that the real close/reopen round-trips through bytes is validated by the reopen scenario: sessions in the same and in freshly spawned processes with other parameters, every key/len/traversal compared (L_api) and the closed files compared byte for byte with Layout.render of the model state (L_img), plus the independent decoder.',
+           BASE + 'Partial: the byte-level reader round trip (load (render s) = s) is not yet a theorem; that dropping the last Rc closes the files and that another process computes the same hash are runtime facts seen only by the child-process runs.',
+           'Coq proof over the record-level model + byte-exact differential reopen runs', 'C02'),
+ 'C03': _c('Theorems over the buffered-file model Buf.v (chunks, dirty sets, arbitrary eviction, flush/sync with the dirty/unsynced flags of dbxxx.rs): the invariant "clear flag => nothing buffered" (the one defect D1 broke) holds at open and is kept by every step; whenever flush/sync returns Ok the disk images equal the memory view, after ANY history including failed flushes; a successful sync issues an OS sync request for each of the three files after that file\'s last buffered write, also when it follows a flush (D9). Tie: every flush/sync in random histories is a crash point - files checksummed while handles are alive and compared with the model image, directory copies re-opened, writer SIGKILLed and the directory opened by a new process; io-trace hook checked for the OS sync requests.',
+           BASE + 'Partial: Buf.v models rabuf at chunk granularity (modelled dependency); fsync reaching stable storage and SIGKILL semantics are the kernel\'s; the link "logical image = render(store)" is by the byte-exact snapshots, not a theorem.',
+           'Coq invariant proof over a buffered-file model with fault oracle + crash-point differential runs', 'C03'),
+ 'C04': _c('Machine-checked theorem C04_iteration: for every state with the invariant, hence every history and EVERY table size >= 1, a full traversal returns Ok, yields a permutation of the ideal map\'s entries (each live key once with its current value, nothing else), the size hint before item j is exactly len-j, 0 at the end, and further next calls return None; rests on the proved specification of the bitmap-accelerated bucket scan (least occupied bucket >= idx for every n and idx; defect D2 lived here). Tie: exact item and hint sequences of all seven iterator entry points vs the model on sparse tables of every power of two 1..65536 and random histories.',
+           BASE + 'The five flavours are wrappers of one state machine in the crate; each is driven separately by the differential runs (test), the theorem is about the state machine.',
+           'Coq proof (invariant + scan specification) + differential traversal runs', 'C04'),
+ 'C05': _c('Theorems: every history preserves the file invariant, and the invariant is exactly the property\'s structure (structure_ok: chains are NoDup linked lists ending in the null link whose keys hash to their bucket, every key record on its bucket\'s chain, no key twice, stored count = number of key records, bitmap bit <-> non-empty bucket, each key record owns one in-bounds value record, allocator invariant for both piece files); the contents are a function of the files. Tie: byte-exact comparison of all three files with Layout.render(model state) at every sync point and close, and an independent Python decoder of the documented layout checks the same clauses and contents = ideal map on the real files.',
+           BASE + 'Partial: the model state is the decoded structure; "bytes decode to it" is established by the byte-exact image comparison and the independent decoder (lib/decoder.py), not yet by a Coq reader round-trip theorem.',
+           'Coq invariant proof + byte-exact image comparison + independent decoder', 'C05'),
+ 'C06': _c('Theorems: after any history both piece files satisfy the allocator invariant (slots tile the file, valid sizes, free list i = exactly the free slots of class i, no slot on two lists or twice, every free slot listed); every slot is in use (then on no list, owned by exactly one entry) or on exactly one free list exactly once; a new piece extends the file iff no free slot is suitable (exact class / first fit on the large list) and then by exactly the rounded size; rewrite frees before it allocates; delete never grows; the slot walks terminate visiting each slot once. Tie: byte-exact images (free-list heads and every slot are in the image), independent decoder (orphans, double membership, gaps, overlaps), cyclic workloads with a bounded live set whose file lengths must stop growing, statistics calls under a watchdog.',
+           BASE + 'Partial: "bounded by the peak live set over a whole history" is given as the one-step theorem (extend only if no suitable free slot) plus the cyclic-workload runs, not as a run-level peak theorem.',
+           'Coq allocator-invariant proof + byte-exact images + growth test on cyclic workloads', 'C06'),
+ 'C07': _c('Theorems: the bucket count derived from BucketsSize/Capacity/Default is a power of two >= 1 (Capacity(0) is the only rejected value); for ANY two table sizes >= 1 every history gives identical results call by call (both equal the ideal map) and traversals agree up to order; opening an existing map ignores all parameters; the buffer-size parameters never enter the model\'s data path. Tie: each random history runs under 4 of 8 configurations (1..4096 buckets as BucketsSize or Capacity; Size(0)/Size(1 chunk)/Size(2 chunks)/Size(1 MiB)/PerMille(1000)/Auto per file; values up to 200 KB so the 4 KiB-chunk value buffer evicts), each compared with the model and with each other; reopen under other parameters; the crate\'s own bucket-count derivation checked for every request in 0..2^16.',
+           BASE + 'Partial: rabuf\'s chunk cache (eviction, per-mille growth) is a dependency exercised by the runs, not yet modelled in Coq (Cache.v planned). Known finding D8 (PerMille(p<1000) on a file past one chunk: rabuf recursion) is listed in known_findings.txt and reported as KNOWN-FINDING.',
+           'Coq proof (results independent of table size; parameter derivation) + multi-configuration differential runs', 'C07'),
+ 'C08': _c('Theorems C08_overwrite_invisible / C08_delete_invisible / C08_relink: from every consistent state, overwriting with a value of any length or deleting any key returns Ok, the affected key has exactly the new value (or is absent) and the ideal map changes nowhere else - through value relocation, key-record relocation and the cascading re-link of predecessors up to the bucket head, for every chain position (the proof is by the length of the intact prefix) and every offset; kernel-computed examples show the relocation really happens for a key that is last, first, in the middle of a chain and alone (value file crossing 16 KiB). Tie: collide scenario - breadth-first exploration of the one-bucket state graph (3 tight keys x 4 value sizes + deletes, from empty / 16 KiB / 2 MiB start images), every path compared op by op and byte for byte at the end.',
+           BASE, 'Coq proof (relocation/re-link lemmas by induction on the chain prefix) + exhaustive small-alphabet state exploration vs the crate', 'C08'),
+ 'C09': _c('Machine-checked theorems (Coq 8.16.1, closed under the global context) that for every value length < 2^31 and every key length < 2^31 with every pair of 8-aligned offsets the slot chosen by the size estimate + class rounding is a legal slot size and holds the record really written, also when an old larger slot is kept; the statements are over the model functions Sizing.val_need/key_need/roundup whose constants are regenerated from the crate on every run, and which are compared with the crate\'s own sizing code (layout-probe hook) exhaustively over the quantified ranges (L_size) and end to end with sentinel entries (L_img).',
+           'Trusted: Coq kernel + VM; the hand-written Sizing.v (tied by Consts.v regeneration and the exhaustive L_size diff: quick 0..2^18 value lengths / 0..1500 key lengths x 35^2 offset classes, thorough 0..2^24 / 0..65536); the probe hook; vu64::encoded_len as the oracle\'s length function. The "writing one entry never alters another" clause is carried by the sentinel sweep and the byte-exact image comparison, plus the allocator frame clauses (other used slots keep their content) of C06.',
+           'Coq proof (lia over varint widths and size classes) + exhaustive differential sizing sweep', 'C09'),
+ 'C10': _c('Machine-checked round-trip and injectivity theorems for the u64, i64 and vu64 key conversions over all 2^64 integers, and "same entry iff equal" for all five key types stated on the comparison the lookup uses (cmp_eq), all closed under the global context; the model conversions are compared with the crate\'s From impls (by value and by reference), cmp_u8 and hash_value on every power of two +-1, extremes and seeded random values, and typed maps are driven by integer-addressed histories against the model.',
+           'Trusted: Coq kernel + VM; hand-written KeyTypes.v/Vu64.v/Hash.v tied by the L_conv diff and 64 regenerated hash vectors; that the by-value and by-reference Rust impls agree is observed (test), not proved. "Keys returned by iteration convert back" rests on C04 (iteration yields the stored key bytes) plus these round trips.',
+           'Coq proof (round trips by case analysis on varint width) + differential conversion check', 'C10'),
+ 'C11': _c('Theorems over the world-level model Db.step: an operation through a handle of one map leaves every other map\'s three files and flags exactly unchanged (step_frame); handle-management calls only flush; any two handles registered for the same (directory, name) give identical steps (handles_alias) and clones / repeated lookups / lookups through a cloned database handle register the same map. Tie: 2..5 maps of mixed key types in one directory with interleaved histories, handles cloned, re-looked-up and obtained through cloned FileDb objects at random points, each map against its own model instance, files of all maps compared byte for byte after flushes.',
+           BASE + 'Partial: in the model a handle is a name, so aliasing holds by construction; the Rc<RefCell> sharing and the five per-type registries of the crate are exercised by the differential runs only.',
+           'Coq frame/alias proof over the world model + multi-map differential runs', 'C11'),
+ 'C12': _c('Theorems: a key\'s record lies on the chain of bucket hash(key) mod n, hash being a closed function of the key bytes (placement depends on key bytes and table size only); the model hash reproduces 256 (key, hash) vectors frozen from the pinned release 4b82afd (kernel computation) and, re-proved on every run, 64 vectors computed by the current crate; the varint codec round-trips; all guarantees hold from any consistent start state (so from golden images). Tie: 15 golden directories written by the pinned release (5 key types x 3 histories) are opened read-only by the current build (contents = committed expectation, files unchanged), decoded by the independent decoder, reproduced byte for byte by the model from the committed history, and driven further by random histories against the model.',
+           BASE + 'Partial: the golden images are tied by execution (model image = golden bytes, checksummed), not by a Coq theorem over the committed bytes.',
+           'Coq proof (placement, frozen hash vectors by vm_compute) + golden-image differential runs', 'C12'),
+ 'C13': _c('Byte-level theorems over Open.v (the three header checks of open_with_params in their real order) and Layout.render: files of a consistent map open under their own type; under any type with a different signature, after ANY single-byte change of the 16 signature bytes of any of the three files, or with any one file replaced by a file of a map with a different signature, the open is Rejected - for every consistent state; the five type signatures are pairwise different except the known pair u64/vu64 (known finding D6, kept as a lemma that stops compiling when the crate changes it). Tie: all 25 ordered type pairs, every foreign-file replacement and byte mutations of all 48 signature positions on real files: rejected before any result, files byte-identical afterwards.',
+           BASE + 'The reject path performs no write in the model by construction (open_files is a pure function of the images); that the real reject path writes nothing is observed by byte comparison. Known finding D6 is reported as KNOWN-FINDING.',
+           'Coq proof over rendered header bytes + exhaustive open matrix on real files', 'C13'),
+ 'C14': _c('Theorems for ANY permutation the sort may produce (stable or not): bulk_get returns at position i exactly get of the i-th key (repeats allowed); bulk_delete of a batch without repeats returns at position i what delete of that key on the original map returns and leaves the map minus the batch; bulk_put of a batch without repeated keys and put_from_iter (in order, repeats allowed) leave exactly the map the individual puts leave; closed corollaries for the executable sorters. Tie: random histories interleaved with all bulk calls and the *_string variants (valid, invalid, truncated UTF-8), batch sizes 0..200, all key types.',
+           BASE + 'Partial: the *_string variants add str::as_bytes / String::from_utf8_lossy (std, not modelled): compared by a test with lossy decoding applied to the model\'s bytes. sort_unstable_by / sort_by are assumed to return permutations.',
+           'Coq proof for an arbitrary sorting permutation + differential bulk runs', 'C14'),
+ 'C15': _c('Theorems over Db.step: every read-only call (get, includes_key, len, is_empty, bulk_get, all traversals, statistics, read_fill_buffer) returns the world unchanged - contents, all three files and flags; flush/sync change flags only and are the identity on an unmodified map. Tie: every state class reached by update histories is closed and checksummed, a session of only read-only calls runs (absent keys, all seven traversals, statistics, flush/sync on the unmodified map), files checksummed again: identical, and equal to the model image.',
+           BASE + 'Partial: the model\'s read paths are functions that return no state, so the theorem is close to "by construction"; that the real read paths (seek extends a file when past the end, bitmap strides read past the end) write nothing is what the before/after byte comparison on real files decides.',
+           'Coq proof over the world model + before/after byte comparison on real files', 'C15'),
+ 'C16': _c('Theorems over Buf.v with an arbitrary fault oracle (which chunk write-backs the OS refuses, arbitrary garbage left by a partial write): a flush/sync with something to do returns Ok iff no buffered chunk is refused (a refusal is never swallowed); whatever the outcome the memory view is unchanged and the invariant kept, after a failure the dirty flag stays raised; after any history including failed flushes a later successful flush makes exactly the current view durable, and a fault-free flush does succeed. Tie: RLIMIT_FSIZE lowered to each threshold of a ladder before flush/sync_all/sync_data so that each file and chunk is in turn the first refused write; Err checked, everything read back against the ideal map, limit lifted, second flush must succeed and files equal the model image.',
+           BASE + 'Partial: errno kinds, short writes below chunk level and ENOSPC/EIO are approximated by "this write-back is refused"; rabuf keeping a chunk dirty on error is a modelled dependency; refusals during eviction inside a put are outside the property.',
+           'Coq proof over a buffered-file model with fault oracle + RLIMIT_FSIZE fault-injection runs', 'C16'),
+ 'C17': _c('Machine-checked theorem C17_statistics: for every consistent state the statistics calls return Ok (walks terminate) and the free-slot count of class i is the length of free list i, the key/value length histograms count exactly the live non-empty keys/values of the ideal map by length, the slot-size histograms count exactly the used slots holding a non-empty key/value by size, the filling figure is (c, c*1000/n) for c non-empty buckets; histograms sorted with positive counters; termination on every reachable state. Tie: statistics lines of the crate vs the model on every state class of random histories and recomputed from the closed files by the independent decoder, each call under the hang watchdog.',
+           BASE, 'Coq proof (walk/free-list specifications + counting lemmas) + differential statistics runs', 'C17'),
+ 'C18': _c('Theorems over Db.step: steps respect equality-up-to-in-memory-flags of worlds; dropping every read-only and flush call from a history leaves an equivalent world, hence byte-identical render images (images_function_of_updates); the image is a function (render o run) of parameters and update history by type. Tie: every random update history is executed twice by the crate - other directory, new process, random read-only calls spliced in - and the closed files must be byte-identical to each other and to the model image.',
+           BASE + 'Partial: run-to-run nondeterminism of the runtime (hash seeds, iteration over unordered in-memory tables during flush, uninitialised memory) cannot be exhibited by a model; the two-process byte comparison is what would expose it.',
+           'Coq proof (read-only calls irrelevant to the image) + two-run byte comparison', 'C18'),
 }
 
-NOT_YET = {
- 'C01': 'check under construction in this round: correspondence scenario exists, refinement theorems are being proved (Refine_*.v)',
- 'C02': 'check under construction in this round',
- 'C03': 'check under construction in this round',
- 'C04': 'check under construction in this round (bitmap-scan theorem proved in Htx_proofs.v; iterator theorem pending)',
- 'C05': 'check under construction in this round',
- 'C06': 'check under construction in this round',
- 'C07': 'check under construction in this round',
- 'C08': 'check under construction in this round',
- 'C11': 'check under construction in this round',
- 'C12': 'check under construction in this round',
- 'C13': 'check under construction in this round',
- 'C14': 'check under construction in this round',
- 'C15': 'check under construction in this round',
- 'C16': 'check under construction in this round',
- 'C17': 'check under construction in this round',
- 'C18': 'check under construction in this round',
-}
+import os as _os
+NOT_YET = {p: 'theorem file coq/Props/%s.v not finished in this round; the correspondence scenario exists' % p
+           for p in CLAIMED if not _os.path.exists('/verif/coq/Props/%s.v' % p)}
+CLAIMED = {p: c for p, c in CLAIMED.items() if p not in NOT_YET}
+
 
 def main():
     checks = []
@@ -69,8 +105,8 @@ def main():
             'kind_free_text': 'Coq 8.16.1 theorems over a hand-written executable Gallina model (coq/theories), constants regenerated from the crate on every run; model extracted to OCaml and run against the Rust harness on seeded operation files; direct oracles (ideal map, independent format decoder) search for a failing input when a proof or the correspondence breaks',
         }],
         'checks': checks,
-        'notes': 'Known findings (D6: C13 u64/vu64 signature, D8: C07 PerMille<1000) are listed in known_findings.txt; six genuine defects were repaired by fix: commits in /repo. See DESIGN.md.',
-        'not_applicable': [{'property_id': p, 'reason': r} for p, r in sorted(NOT_YET.items()) if p not in CLAIMED],
+        'notes': 'Known findings (D6: C13 u64/vu64 signature, D8: C07 PerMille<1000) are listed in known_findings.txt; seven genuine defects were repaired by fix: commits in /repo. See DESIGN.md.',
+        'not_applicable': [{'property_id': p, 'reason': r} for p, r in sorted(NOT_YET.items())],
     }
     json.dump(m, open('/verif/MANIFEST.json', 'w'), indent=1)
 
